@@ -61,46 +61,87 @@ def build(rng, exports, system, nt, ntv, weak=False, soft=False):
     t = numpy.linspace(0.0, 2000.0, nt)
     stub.qha_calculator = SimpleNamespace(volume_base=SimpleNamespace(v_array=v, t_array=t))
     stub.elast_data = SimpleNamespace(cellmass=float(rng.uniform(20.0, 400.0)))
-    Calculator._calculate_compliances(stub)
-    return stub, CijVolumeBaseInterface(stub), C, pd, keys, v
+    # the inverse is computed by the calculator's own (private) routine on the stub; if a refactor moves it, the injected-field path
+    # is unavailable (the end-to-end path below still runs)
+    fn = getattr(Calculator, "_calculate_compliances", None)
+    if fn is None:
+        raise StubUnavailable("Calculator has no _calculate_compliances")
+    try:
+        fn(stub)
+        vb = CijVolumeBaseInterface(stub)
+    except (AttributeError, TypeError) as ex:
+        raise StubUnavailable(repr(ex))
+    return stub, vb, C, pd, keys, v
 
 
-def main(ctx, replay=None):
-    from cij.util import c_
-    rng = numpy.random.default_rng(ctx.seed + 707)
-    sc = ctx.subdir("tlc")
-    res = must_ok(run_tlc("C07", None, sc, workers=1, timeout=300))
-    forms = res.load("c07_forms.json")
-    exports = fillspec.cached_exports(ctx)
-    ctx.cov["rule"] = ("positive-definite stiffness fields on a (T,V) grid for each of the nine systems (invariant tensors, random subsets "
-                       "of components containing the nine orthotropic ones), random cell masses and volumes; a case is one field; each "
-                       "(T,V) sample is one trace record; all non-trivial")
-    ctx.assumptions += ["positive definiteness is decided by numpy eigvalsh in the harness and logged per sample",
-                        "N_A, Rydberg, Bohr radius literals of cv/consts.py (rtol 1e-7)"]
-    nfields = 3 if ctx.tier == "quick" else 120
-    records = []
+class StubUnavailable(Exception):
+    pass
+
+
+def end_to_end(ctx, rng, exports, forms, records, n):
+    """The same clauses on real calculations (public attributes only): stiffness = modulus_adiabatic of the run."""
+    from cv.e2e import Workdir, system_dataset
+    from cv.synth import run
     G = consts.RY_BOHR3_TO_GPA
-    for system in fillspec.SYSTEMS:
-        for fi in range(nfields):
-            nt, ntv = int(rng.integers(2, 5)), int(rng.integers(3, 7))
-            soft = bool(fi == 0 and system in ("orthorhombic", "monoclinic", "triclinic"))
-            stub, vb, C, pd, keys, v = build(rng, exports, system, nt, ntv, weak=(fi == nfields - 1 and system not in ("cubic", "orthorhombic")), soft=soft)
-            case = {"system": system, "keys": ["%d%d" % k for k in keys], "mass": stub.elast_data.cellmass}
+    wd = Workdir()
+    done = 0
+    try:
+        for system in [str(x) for x in rng.permutation(fillspec.SYSTEMS)][:n]:
+            ds = system_dataset(rng, exports, system, lattice=bool(rng.random() < 0.5), nq=2, nat=2, settings={"NT": 4, "DT": 400, "NTV": 7})
+            d = wd.sub(f"e2e_{system}")
+            try:
+                ds.fit_pressure_window(d)
+                calc = run(ds.write(d))
+            except Exception:
+                continue                                   # completion is C12's business
+            vb = calc.volume_base
+            keys = [tuple(k.voigt) for k in calc.modulus_keys]
+            nt, ntv = numpy.asarray(calc.modulus_adiabatic[calc.modulus_keys[0]]).shape
+            C = numpy.zeros((nt, ntv, 6, 6))
+            for k in calc.modulus_keys:
+                i, j = k.voigt
+                C[:, :, i - 1, j - 1] = C[:, :, j - 1, i - 1] = numpy.asarray(calc.modulus_adiabatic[k]) * G
+            if not numpy.all(numpy.isfinite(C)):
+                continue
+            pd = numpy.all(numpy.linalg.eigvalsh(C) > 1e-6, axis=-1)
+            case = {"system": system, "path": "calculator", "keys": ["%d%d" % k for k in keys], "mass": float(calc.elast_data.cellmass)}
             ctx.count(case)
-            sig = {"system": system}
+            assess(ctx, forms, system, vb, C, pd, numpy.asarray(vb.v_array, dtype=float), float(calc.elast_data.cellmass), case,
+                   {"system": system, "path": "calculator"}, records)
+            done += 1
+    finally:
+        wd.close()
+    return done
+
+
+def compliance_tensor(vb, shape):
+    """S[t,v,i,j] in 1/GPa through the public attributes s11 .. s66 of the base (a vanishing component is not an attribute)."""
+    G = consts.RY_BOHR3_TO_GPA
+    S = numpy.zeros(shape)
+    for i in range(6):
+        for j in range(i, 6):
+            try:
+                a = getattr(vb, "s%d%d" % (i + 1, j + 1))
+            except AttributeError:
+                continue
+            S[:, :, i, j] = S[:, :, j, i] = numpy.asarray(a) / G
+    return S
+
+
+def assess(ctx, forms, system, vb, C, pd, v, mass, case, sig, records, soft=False):
+    """All clauses of C07 on one base object: C (GPa) is the stiffness field the base reports, pd where it is positive definite."""
+    G = consts.RY_BOHR3_TO_GPA
+    nt, ntv = C.shape[:2]
+    if True:
+        if True:
             try:
                 rep = {n: numpy.asarray(getattr(vb, a)) for n, a in (("kv", "bulk_modulus_voigt"), ("kr", "bulk_modulus_reuss"),
                        ("kh", "bulk_modulus_voigt_reuss_hill"), ("gv", "shear_modulus_voigt"), ("gr", "shear_modulus_reuss"),
                        ("gh", "shear_modulus_voigt_reuss_hill"), ("vp", "primary_velocities"), ("vs", "secondary_velocities"))}
             except Exception as ex:
                 ctx.violation(f"{system}: averages raised {ex!r}", case, {**sig, "clause": "raises"})
-                continue
-            S = numpy.zeros_like(C)
-            for i in range(6):
-                for j in range(i, 6):
-                    a = stub._compliances.get(c_(i + 1, j + 1))
-                    if a is not None:
-                        S[:, :, i, j] = S[:, :, j, i] = numpy.asarray(a) / G          # 1/GPa
+                return
+            S = compliance_tensor(vb, C.shape)
             catoms = {"c%d%d" % k: C[:, :, k[0] - 1, k[1] - 1] for k in KEYS21}
             satoms = {"s%d%d" % k: S[:, :, k[0] - 1, k[1] - 1] for k in KEYS21}
             exp = {"kv": evaluate(forms["kv"], catoms), "gv": evaluate(forms["gv"], catoms),
@@ -115,7 +156,7 @@ def main(ctx, replay=None):
             if not numpy.allclose(eye[pd], numpy.eye(6)[None], atol=1e-8):
                 ctx.violation(f"{system}: reported compliances are not the inverse of the reported stiffness", case, {**sig, "clause": "inverse"})
             # velocities in km/s with rho = m / (N_A V)
-            rho = stub.elast_data.cellmass / (consts.N_A * v[None, :] * consts.BOHR_M ** 3 * 1e6)        # g/cm^3
+            rho = mass / (consts.N_A * v[None, :] * consts.BOHR_M ** 3 * 1e6)        # g/cm^3
             kh, gh = rep["kh"] * G, rep["gh"] * G
             for n, val in (("vs", numpy.sqrt(gh / rho)), ("vp", numpy.sqrt((kh + 4.0 / 3.0 * gh) / rho))):
                 if not numpy.allclose(rep[n][pd], val[pd], rtol=1e-7):
@@ -134,7 +175,44 @@ def main(ctx, replay=None):
                                     "rho": int(round(rho[0, iv] * 100)), "vp": int(round(rep["vp"][it, iv] * 100)),
                                     "vs": int(round(rep["vs"][it, iv] * 100)), "vslack": vsl, "pd": bool(pd[it, iv]),
                                     "sys": system})
-        ctx.sample({"system": system, "record": {k: records[-1][k] for k in ("kv", "kr", "kh", "gv", "gr", "gh", "rho", "vp", "vs", "pd")}}, limit=3)
+
+
+def main(ctx, replay=None):
+    from cij.util import c_
+    rng = numpy.random.default_rng(ctx.seed + 707)
+    sc = ctx.subdir("tlc")
+    res = must_ok(run_tlc("C07", None, sc, workers=1, timeout=300))
+    forms = res.load("c07_forms.json")
+    exports = fillspec.cached_exports(ctx)
+    ctx.cov["rule"] = ("positive-definite stiffness fields on a (T,V) grid for each of the nine systems (invariant tensors, random subsets "
+                       "of components containing the nine orthotropic ones), random cell masses and volumes; a case is one field; each "
+                       "(T,V) sample is one trace record; all non-trivial")
+    ctx.assumptions += ["positive definiteness is decided by numpy eigvalsh in the harness and logged per sample",
+                        "N_A, Rydberg, Bohr radius literals of cv/consts.py (rtol 1e-7)"]
+    nfields = 3 if ctx.tier == "quick" else 120
+    records = []
+    G = consts.RY_BOHR3_TO_GPA
+    stub_ok = True
+    for system in fillspec.SYSTEMS:
+        for fi in range(nfields if stub_ok else 0):
+            nt, ntv = int(rng.integers(2, 5)), int(rng.integers(3, 7))
+            soft = bool(fi == 0 and system in ("orthorhombic", "monoclinic", "triclinic"))
+            try:
+                stub, vb, C, pd, keys, v = build(rng, exports, system, nt, ntv, weak=(fi == nfields - 1 and system not in ("cubic", "orthorhombic")), soft=soft)
+            except StubUnavailable as ex:
+                stub_ok = False
+                ctx.cov["injected_field_path"] = f"unavailable: {ex}"
+                break
+            case = {"system": system, "keys": ["%d%d" % k for k in keys], "mass": stub.elast_data.cellmass}
+            ctx.count(case)
+            sig = {"system": system}
+            assess(ctx, forms, system, vb, C, pd, v, stub.elast_data.cellmass, case, sig, records, soft)
+        if records:
+            ctx.sample({"system": system, "record": {k: records[-1][k] for k in ("kv", "kr", "kh", "gv", "gr", "gh", "rho", "vp", "vs", "pd")}}, limit=3)
+    ne2e = end_to_end(ctx, rng, exports, forms, records, (2 if stub_ok else 6) if ctx.tier == "quick" else 18)
+    ctx.cov["end_to_end_runs"] = ne2e
+    if not stub_ok and ne2e < 2:
+        raise MachineryError("neither the injected-field path nor the end-to-end path of C07 could run")
     usable = [r for r in records if r["pd"] and max(abs(x) for row in r["c"] for x in row) < 30000 and r["rho"] * r["vp"] ** 2 < 2 ** 30 // 3]
     ok, consumed, tres = validate_trace(ctx, "Trace_Averages", "Trace_Averages.cfg", usable, name="averages", timeout=900)
     ctx.cov["records"] = len(usable)
